@@ -198,8 +198,8 @@ class Future(FutureBase):
         try:
             self.set_value(self._value_provider())
         except Exception as error:
+            # not re-raised: value() raises it through raise_if_error(), error() returns it
             self.set_error(error)
-            raise
 
 
 class ConstFuture(FutureBase):
